@@ -47,6 +47,7 @@ type Cluster struct {
 	SnapPad   int
 
 	contactAt map[string]time.Time // harness estimate of each node's lastContact
+	leaseAt   map[string]time.Time // last time a replication reply reached the node (lease renewal, at most)
 }
 
 type Node struct {
@@ -57,6 +58,10 @@ type Node struct {
 	dir string
 	tr  *memTransport
 	fsm *FSM
+	lw  *logW
+
+	pterm int // last persisted (or loaded) term / vote
+	pvote string
 
 	ghost   atomic.Bool
 	running bool
@@ -131,7 +136,7 @@ func NewCluster(t *testing.T, rec *Rec, ids []string) *Cluster {
 	}
 	c := &Cluster{t: t, rec: rec, ids: ids, nodes: map[string]*Node{}, byPtr: map[*raft.Raft]*Node{},
 		root: root, codec: codec, ET: 300 * time.Millisecond, HB: 50 * time.Millisecond, Lease: 100 * time.Millisecond,
-		contactAt: map[string]time.Time{}}
+		contactAt: map[string]time.Time{}, leaseAt: map[string]time.Time{}}
 	c.net = newNet(c)
 	theCluster.Store(c)
 	return c
@@ -163,12 +168,13 @@ func (c *Cluster) create(id string, inc int, dir string) (*Node, error) {
 	if err != nil {
 		return n, fmt.Errorf("NewStateStorage: %w", err)
 	}
+	n.lw = &logW{n: n, inner: lg}
 	sn, err := raft.NewSnapshotStorage(dir)
 	if err != nil {
 		return n, fmt.Errorf("NewSnapshotStorage: %w", err)
 	}
 	r, err := raft.NewRaft(id, id, n.fsm, dir,
-		raft.WithLog(&logW{n: n, inner: lg}),
+		raft.WithLog(n.lw),
 		raft.WithStateStorage(&stateW{n: n, inner: ss}),
 		raft.WithSnapshotStorage(&snapW{n: n, inner: sn}),
 		raft.WithTransport(n.tr),
